@@ -42,21 +42,31 @@ Definition unit_tags (body : ty) : string :=
   match body with TStruct _ => "field" | TMap _ _ => "rootmap" | TSlice _ => "rootslice" | _ => "other" end ++
   ",d" ++ nat_to_string (depth body).
 
-Definition case_line (u : string * ty) : string :=
+Definition case_line_as (grouped : bool) (id : string) (u : string * ty) : string :=
   let '(root, body) := u in
-  let pkg := pkg_of root in let imp := imp_of root in
+  let pkg := pkg_of id in let imp := imp_of id in
   let ds := decls_of_root root body in
-  let src := go_file pkg ds in
+  let src := if grouped then go_file_grouped pkg ds else go_file pkg ds in
   let an := ast_nodes pkg imp ds in
   let ln := loader_nodes pkg imp ds in
   let files := join "," (sort_strs (map (fun n => lower_str (n_name n) ++ "_ins.go") an)) in
   let xa := join "," (sort_strs (map (fun n => lower_str (n_name n) ++ ":" ++ hash_text (xml n)) an)) in
   let xl := join "," (sort_strs (map (fun n => lower_str (n_name n) ++ ":" ++ hash_text (xml n)) ln)) in
   let model := "gen=ok;files=" ++ files ++ ";fmt=ok;build=ok;iface=ok;xmlast=" ++ xa ++ ";xmlpkg=" ++ xl ++ ";det=ok;tgt=ok" in
-  root ++ tab ++ unit_tags body ++ tab ++ pkg ++ ";" ++ root ++ ";" ++ hex_of_bytes (bytes_of_string src) ++ tab ++
+  id ++ tab ++ unit_tags body ++ (if grouped then ",grouped" else "") ++ tab ++ pkg ++ ";" ++ root ++ ";" ++ hex_of_bytes (bytes_of_string src) ++ tab ++
   (if sup_root body then model else "?") ++ tab ++ model.
 
-Definition cases (tier : Z) (seed : Z) : list string := map case_line (candidate_units tier).
+Definition case_line (u : string * ty) : string := case_line_as false (fst u) u.
+
+(* the multi-field units once more, written as ONE parenthesised type group (named scalars and the other named types come
+   before the root in it): the front ends must find the same types in a group as in separate declarations *)
+Definition multi_units : list (string * ty) :=
+  (fix go (i : nat) (bs : list ty) : list (string * ty) :=
+     match bs with [] => [] | b :: r => (String.append "M" (nat_to_string i), b) :: go (S i) r end) 0%nat multi.
+Definition grouped_cases : list string :=
+  map (fun u : string * ty => case_line_as true (String.append "G" (fst u)) u) multi_units.
+
+Definition cases (tier : Z) (seed : Z) : list string := map case_line (candidate_units tier) ++ grouped_cases.
 
 (* the units the emitter streams link into their runner *)
 Definition emit_cases (tier : Z) (seed : Z) : list string := map case_line (emit_units tier).
